@@ -33,6 +33,7 @@ type vcdTrip struct {
 	V    map[string]any `json:"v"`
 	Path string         `json:"path"`
 	Sel  string         `json:"sel"` // "" = every scheme, "first" = first scheme only, "rest" = all but the first
+	Over map[string]any `json:"over"` // a value of the same type saved first under the same name (store paths)
 }
 
 func vcdInt(v map[string]any, k string) int { return int(v[k].(float64)) }
@@ -363,12 +364,23 @@ func TestVerifCodec(t *testing.T) {
 				continue
 			}
 			v, path := x.V, x.Path
-			ev := vlib.E{"scheme": name, "v": v, "path": path, "err": "", "rest": true, "restdiff": "", "hasheq": true, "p": map[string]any{}}
+			over := x.Over
+			if over == nil {
+				over = map[string]any{"type": "none"}
+			}
+			hasOver := vcdStr(over, "type") != "none"
+			ev := vlib.E{"scheme": name, "v": v, "path": path, "over": over, "err": "", "rest": true, "restdiff": "", "hasheq": true, "p": map[string]any{}}
 			var diff vcdDiff
 			fail := func(err error) { ev["err"] = err.Error() }
 			switch vcdStr(v, "type") {
 			case "group":
 				orig := vcdGroup(sch, v)
+				if hasOver && path == "file" {
+					if err := store.SaveGroup(vcdGroup(sch, over)); err != nil {
+						fail(err)
+						break
+					}
+				}
 				g2, err := vcdGroupDecode(path, dir, store, vcdGroup(sch, v), nil, nil)
 				if err != nil {
 					fail(err)
@@ -406,6 +418,7 @@ func TestVerifCodec(t *testing.T) {
 							pg.SchemeID = "unknown-scheme"
 						}
 					})
+				delete(ev, "over")
 				delete(ev, "p")
 				delete(ev, "rest")
 				delete(ev, "restdiff")
@@ -438,6 +451,15 @@ func TestVerifCodec(t *testing.T) {
 					}
 					ev["p"] = map[string]any{"type": "pair", "sig": v["sig"]}
 				} else {
+					if hasOver {
+						osc := sch.KeyGroup.Scalar().SetBytes(vhsSeed("other-pair-scalar"))
+						other := &key.Pair{Key: osc, Public: &key.Identity{Key: sch.KeyGroup.Point().Mul(osc, nil), Addr: "a-much-longer-host-name-of-the-other-pair.verif.test:44444",
+							Signature: vcdSig(vcdInt(over, "sig") == 1, "the-other-pair-with-a-longer-signature"), Scheme: sch}}
+						if err := store.SaveKeyPair(other); err != nil {
+							fail(err)
+							break
+						}
+					}
 					if err := store.SaveKeyPair(orig); err != nil {
 						fail(err)
 						break
@@ -517,6 +539,12 @@ func TestVerifCodec(t *testing.T) {
 						break
 					}
 				} else {
+					if hasOver {
+						if err := store.SaveShare(vcdShare(sch, over)); err != nil {
+							fail(err)
+							break
+						}
+					}
 					if err := store.SaveShare(orig); err != nil {
 						fail(err)
 						break
